@@ -29,6 +29,8 @@ ASSUMPTIONS = [
     'decorator, non-semver ISA version, deprecated predefined.memory ...) are generated and histogrammed but not asserted',
     'keyword register names are written in the exact case of the keyword',
     'acceptance is probed by assembling a one-line data program, so only load-time validation is exercised',
+    'a definition without identifier.name is called after its configuration file: the file name up to its last extension '
+    '(pinned from the tree), and a definition without identifier has version 0.0.1',
 ]
 BUDGET = {'quick': 3000, 'thorough': 100000}
 LEVEL_TEXT = ('Fault enumeration over a fixed catalogue, multiplied over generated base definitions: each listed kind of '
@@ -175,7 +177,20 @@ def _cases(draw, tier):
     name = draw(st.sampled_from(['tiny-cpu', 'bvf_isa', 'cpu.v2']))
     ver = draw(st.sampled_from(ISA_VERSIONS))
     cfg['general']['identifier'] = {'name': name, 'version': ver}
-    req_name = draw(st.sampled_from([name, name, name, 'other-cpu', name.upper()]))
+    stem = None
+    if draw(st.integers(0, 3)) == 0:
+        # no name in the definition: the language is called after the configuration file (text before its extension)
+        stem = draw(st.sampled_from(['tiny', 'tiny.v2', 'cpu.8bit.rev2', 'isa.yaml.bak']))
+        if draw(st.booleans()):
+            del cfg['general']['identifier']
+            ver = '0.0.1'
+        else:
+            del cfg['general']['identifier']['name']
+        pool = [stem, stem, stem.split('.')[0], 'other-cpu']
+        name = stem
+    else:
+        pool = [name, name, name, 'other-cpu', name.upper()]
+    req_name = draw(st.sampled_from(pool))
     if draw(st.integers(0, 4)) == 0:
         req = f'#require "{req_name}"'
         op = rv = None
@@ -183,7 +198,8 @@ def _cases(draw, tier):
         op = draw(st.sampled_from(OPS))
         rv = draw(st.sampled_from(ISA_VERSIONS + [ver]))
         req = f'#require "{req_name} {op} {rv}"'
-    case = {'kind': 'require', 'isa': cfg, 'fmt': fmt, 'require': req, 'req_name': req_name, 'op': op, 'req_version': rv}
+    case = {'kind': 'require', 'isa': cfg, 'fmt': fmt, 'require': req, 'req_name': req_name, 'op': op, 'req_version': rv,
+            'stem': stem, 'isa_version': ver}
     if draw(st.integers(0, 2)) == 0:
         # an earlier, satisfied requirement for the same language must not excuse a later one
         case['first'] = draw(st.sampled_from([f'#require "{name}"', f'#require "{name} >= 0.0.1"', f'#require "{name} == {ver}"']))
@@ -234,18 +250,25 @@ def execute(case, ctx):
                 extra_files['lib.asm'] = case['require'] + '\n.byte 2\n'
             else:
                 src = case['first'] + '\n' + src
-        isa_name = cfg['general']['identifier']['name'].strip().replace(' ', '_')
+        if case.get('stem'):
+            isa_name = case['stem']
+            fname = case['stem'] + '.' + fname.rsplit('.', 1)[1]
+            isa_ver = case['isa_version']
+        else:
+            isa_name = cfg['general']['identifier']['name'].strip().replace(' ', '_')
+            isa_ver = cfg['general']['identifier']['version']
         ok = case['req_name'] == isa_name
         if ok and case['op'] is not None:
             try:
-                a, b = vkey(cfg['general']['identifier']['version']), vkey(case['req_version'])
+                a, b = vkey(isa_ver), vkey(case['req_version'])
                 ok = R.CMP[case['op']](a, b)
-                sa, sb = cfg['general']['identifier']['version'], case['req_version']
+                sa, sb = isa_ver, case['req_version']
                 nontrivial = R.CMP[case['op']](sa, sb) != ok
             except ValueError:
                 ok = None
         expect = None if ok is None else ('accepted' if ok else 'rejected')
-        tag = 'require:' + ('name-mismatch' if case['req_name'] != isa_name else str(case['op'])) + ('/after-an-earlier-require' if case.get('first') else '')
+        tag = 'require:' + ('name-mismatch' if case['req_name'] != isa_name else str(case['op'])) + \
+              ('/after-an-earlier-require' if case.get('first') else '') + ('/language-named-after-the-file' if case.get('stem') else '')
     files = {fname: text, 'p.asm': src}
     if kind == 'require':
         files.update(extra_files)
